@@ -432,6 +432,51 @@ def one_curve(rec, rng, cid, tsets, xproc):
                 "state": state, "configs": hist}, limit=2)
 
 
+def memory_set_sequence(rec, rng, cid):
+    """ONE fitted curve rated with in-memory training sets that differ in one
+    array only, one after the other (same regressor, names, LDA flag): each
+    rating is the standalone rater's for that very training set"""
+    from nanite.rate.features import IndentationFeatures as IF
+    spec = fitlab.draw_curve_spec(rng, models=["hertz_para"], npts=(700,),
+                                  noise_snr=(100,), with_tip=True)
+    idnt = fitlab.build_curve(spec)[0]
+    idnt.fit_model(model_key="hertz_para")
+    reg = ["Extra Trees", "Random Forest", "Decision Tree"][
+        int(rng.integers(3))]
+    base = in_memory_ts(None)
+    Xe = base[0].copy()
+    Xe[:, 0] = Xe[:, 0] * 1.5 + .1
+    variants = {"mem-same": base,
+                "mem-y-edited": (base[0].copy(),
+                                 np.clip(10 - base[1], 0, 10)),
+                "mem-X-edited": (Xe, base[1].copy()),
+                "mem-copy": (base[0].copy(), base[1].copy())}
+    order = [str(k) for k in rng.permutation(sorted(variants))]
+    hist = []
+    for kind in order + [order[0]]:
+        ts_val = variants[kind]
+        hist.append(kind)
+        case = {"id": cid, "kind": "memory-set-sequence", "regressor": reg,
+                "sequence": list(hist)}
+        try:
+            rt = idnt.rate_quality(regressor=reg, training_set=ts_val)
+        except BaseException as e:  # noqa
+            rec.violation("raises/memory-set-sequence/" + type(e).__name__,
+                          "rate_quality raised %s" % str(e)[:80], case)
+            continue
+        ts_key = "mem" if kind in MEM[:2] else kind
+        orat = oracle_rater(reg, ts_val, None, None, ts_key)
+        want = orat.rate(samples=np.atleast_2d(
+            IF.compute_features(idnt, names=orat.names)))[0]
+        rec.evaluated(dg=("memseq", cid, list(hist)))
+        rec.event("ratings compared with the standalone rater")
+        rec.event("in-memory training set sequences")
+        rec.check(rt == want, "differs-from-standalone-rater/after-other-"
+                  "in-memory-training-set",
+                  "rated %r with %s after %s, standalone rater %r"
+                  % (rt, kind, hist[:-1], want), case)
+
+
 def crosstalk(rec, rng, cid, tsets):
     """configurations that differ in one component, requested one after the
     other on FRESH curve objects in this process: a rating must not depend on
@@ -580,6 +625,8 @@ def _run_shard(rec, tier, seed, shard, nshards):
                       tsets, xproc)
         crosstalk(rec, core.case_rng(seed, ID, shard, 10 ** 6 + 1),
                   [shard, 10 ** 6 + 1], tsets)
+        memory_set_sequence(rec, core.case_rng(seed, ID, shard, 10 ** 6 + 2),
+                            [shard, 10 ** 6 + 2])
         if xproc is not None:
             cross_process(rec, xproc, seed)
     finally:
